@@ -262,6 +262,7 @@ def gen_cases(ctx: Ctx):
     cases.append(("param_grad", {"names": ["h2o"], "method": "AM1", "param": "U_ss", "mode": 1, "output": "homo", "leaf": True, "warm": 1}))
     # unrestricted references x backward modes x density-dependent outputs (radicals: the two spin densities differ)
     ucases = [("oh", "AM1", "g_ss", 1, "charges"), ("no", "PM3", "U_pp", 1, "homo"), ("oh", "PM3", "g_p2", 2, "charges"), ("o2", "MNDO", "beta_p", 1, "gap"), ("no", "AM1", "g_pp", 0, "Etot")]
+    cases.append(("param_grad", {"names": ["oh"], "method": ["AM1", "PM3"][ctx.seed % 2], "param": ["g_ss", "U_ss"][(ctx.seed // 2) % 2], "mode": 1, "output": "charges", "leaf": True, "uhf": True}))   # fixed in every run
     for j in range(len(ucases) if ctx.thorough else 2):
         nm, meth, par, mode, outp = ucases[(j + 2 * ctx.seed) % len(ucases)] if not ctx.thorough else ucases[j]
         cases.append(("param_grad", {"names": [nm], "method": meth, "param": par, "mode": mode, "output": outp, "leaf": True, "uhf": True}))
@@ -298,7 +299,9 @@ def gen_cases(ctx: Ctx):
     else:
         cases.append(("hessian", {"names": ["h2"], "method": "AM1", "cols": [0, 4]}))
     # second derivatives of a nearly symmetric molecule (degenerate levels split by 1e-9 .. 1e-5 eV)
-    cases.append(("hessian", {"names": [["ch4"], ["nh3"]][ctx.seed % 2], "method": str(rng.choice(["AM1", "PM3"])), "cols": [0, 4], "near_symmetric": float(rng.choice([1e-7, 1e-6])), "seed": int(rng.integers(0, 10**6))}))
+    cases.append(("hessian", {"names": ["ch4"], "method": str(rng.choice(["AM1", "PM3"])), "cols": [0, 4], "near_symmetric": float(rng.choice([1e-7, 1e-6])), "seed": int(rng.integers(0, 10**6))}))
+    if ctx.thorough:
+        cases.append(("hessian", {"names": ["nh3"], "method": "AM1", "cols": [0, 4], "near_symmetric": 1e-7, "seed": int(rng.integers(0, 10**6))}))
     return cases
 
 
